@@ -17,8 +17,8 @@ func init() {
 		run: runC14,
 		explanation: "Structural clauses of 'clean exit': (R1) every DEC private mode the light renderer switches on from Init/Resume (mouse 1000/1002/1006, bracketed paste 2004) is switched off in a function called unconditionally from both Close and Pause, under a guard no stronger than the setter's; raw mode (term.MakeRaw) is undone by term.Restore on the same unconditional paths; ?7l is always followed by ?7h; Close re-shows the cursor under the complement of flush's condition; ?1049 has a may-reset; " +
 			"(R2) the render loop can stop only through exit(): previewer told to quit, listener closed, terminal closed, all before `running=false`; after the loop EvtQuit is posted, the preview is killed and the context cancelled; Become is dominated by tui.Close; the fatal paths of the key reader close the terminal; " +
-			"(R3) every temp-file list returned by placeholder expansion is removed on every path (or handed to a commandSpec that Reader.restart removes); (R4) every child started through ExecCommand is waited for on the success path, and only process-group leaders are group-killed.",
-		notDecided: "absence of panics/hangs for all geometries, inputs and histories (width arithmetic, constrain()); correctness of the key decoder on arbitrary bytes (index guards are P2/not built); Windows and tcell renderers (not compiled in this configuration)",
+			"(R3) every temp-file list returned by placeholder expansion is removed on every path (or handed to a commandSpec that Reader.restart removes); (R4) every child started through ExecCommand is waited for on the success path, and only process-group leaders are group-killed; (R5) every constant index into the key decoder's input buffer is covered by a proven lower bound of its length (interval analysis along the CFG).",
+		notDecided: "absence of panics/hangs for all geometries, inputs and histories (width arithmetic, constrain()); non-constant indexes and value-level behaviour of the key decoder; Windows and tcell renderers (not compiled in this configuration)",
 	})
 }
 
@@ -169,6 +169,7 @@ func runC14(c *Ctx, r *Report) {
 	c14r2(c, r)
 	c14r3(c, r)
 	c14r4(c, r)
+	c14r5(c, r)
 }
 
 func c14r1(c *Ctx, r *Report) {
